@@ -92,7 +92,7 @@ var c14Subs = []c14Sub{
 
 const c14Private = 1
 
-var c14Outcomes = []string{"done", "doneFinishFail", "notDone", "fail", "failCtx", "fatal", "crash"}
+var c14Outcomes = []string{"done", "doneFinishFail", "notDone", "notDoneFin", "fail", "failCtx", "fatal", "crash"}
 
 // ---------------------------------------------------------------- sentinel values
 
@@ -504,6 +504,11 @@ func (h *c14H) receive(g *c14Gen, s int, ev Event) (bool, error) {
 	case "done", "doneFinishFail":
 		return true, nil
 	case "notDone":
+		return false, nil
+	case "notDoneFin":
+		// while the receiver runs, another goroutine finishes this very job (protocol v2: the payload reply is handled
+		// - WritePayload, private.Finished - before handlePrivateTxRetry has returned)
+		_ = g.notifiers[s].Finished(ev.Hash)
 		return false, nil
 	case "fail":
 		return false, errors.New("scripted failure")
@@ -1041,7 +1046,7 @@ func (r *c14Run) drain(limit int) {
 var c14OutW = []struct {
 	o string
 	w int
-}{{"done", 25}, {"notDone", 20}, {"fail", 25}, {"failCtx", 5}, {"fatal", 8}, {"doneFinishFail", 7}, {"crash", 3}}
+}{{"done", 25}, {"notDone", 18}, {"fail", 25}, {"failCtx", 5}, {"fatal", 8}, {"doneFinishFail", 7}, {"crash", 3}, {"notDoneFin", 4}}
 
 func (r *c14Run) pickOutcome(allowFaults bool) string {
 	for {
